@@ -5,6 +5,6 @@ CONSTANTS
     BugCounterWrap = FALSE
     BugFreedSet = FALSE
 SPECIFICATION Spec
-INVARIANTS NoPanic FreedDisjoint
-PROPERTY Refines
+INVARIANTS NoPanic FreedDisjoint IndInvImpl
+PROPERTIES Refines RefinesInd
 CHECK_DEADLOCK FALSE
